@@ -4,6 +4,7 @@ import Proofs.C10.ExampleKey
 import Proofs.C10.ExampleEcdsa
 import Proofs.C10.ExampleSchnorr
 import Proofs.C10.Checker
+import Proofs.C10.Bip322
 import Proofs.E2E.C10
 import Props.C09
 /-!
@@ -1036,6 +1037,48 @@ theorem closure_sh_pkh_secp256k1 (vk : Bytes → Bool) (flags : Nat) (cx : TxCtx
       verifyScript (envOf secpCrypto flags cx) ss (p2sh hr) wit = .ok () :=
   closure_sh_pkh vk (envOf secpCrypto flags cx) hr h20 _ pk hrl hl20 hP hhr hh20 henc hs2 hs hpk hne
     (Btc.E2E.sign_passes_checkECDSA_secp256k1 cx (p2pkh h20) .BASE ht hht hk pk hp hsign der hder hmax)
+
+/-! ## T3 — BIP322 simple signatures verify for the address and message they were made for
+
+`Model/C10/Bip322.lean` mirrors `bip322.py: message_hash, to_spend, to_sign` (both txids and the engine run are compared
+with btclib by the `c10.bip322.model` stream); `verifySimple` is the engine run of `assert_as_valid` on the `to_sign` built
+from THIS message and THIS script.  Sign-then-verify is then the template closure applied to `to_sign`.  Not proved: the
+p2pkh / p2sh-p2wpkh address kinds (full-variant payload), the address -> script map (C06), BMS (C02 owns its theorems),
+and that another message / address does NOT verify (unforgeability, assumed). -/
+
+/-- BIP322 simple, p2wpkh address, on the executed instance: the witness the signer makes over the BIP143 digest of
+    `to_sign(to_spend(msg, 0 <h>))` verifies for that message and address under every flag set with WITNESS. -/
+theorem bip322_simple_p2wpkh_secp256k1 (flags : Nat) (msg h pk : Bytes) (ht : Nat) (hht : ht < 256)
+    {q k r s kid : Int} (hl : h.length = 20) (hW : has flags FLAG_WITNESS = true) (hnz : castToBool h = true)
+    (hh : ripemd160 (sha256 pk) = h) (hpk : isCompressedPubKey pk = true)
+    (hp : secpParsePub pk = some ((EC.ops EC.secp256k1).mul q EC.secp256k1.G)) (hk : 0 < k ∧ k < EC.secp256k1.n)
+    (hsign : Ecdsa.signRecoverable (EC.ops EC.secp256k1)
+      (Rfc6979.challenge EC.secp256k1.n
+        (engineEcdsaDigest secpCrypto (Bip322.signCtx secpCrypto msg (p2wpkh h)) (p2pkh h) .WITNESS_V0 ht)) q k true =
+        .ok (r, s, kid))
+    (der : Bytes) (hder : Der.serialize r s = .ok der) (hmax : der.length ≤ Gen.VarInt.MAX_SIZE)
+    (henc : checkSignatureEncoding flags (der ++ [UInt8.ofNat ht]) = .ok ())
+    (hslen : (der ++ [UInt8.ofNat ht]).length ≤ 520) :
+    Bip322.verifySimple secpCrypto flags msg (p2wpkh h) [] [der ++ [UInt8.ofNat ht], pk] = .ok () :=
+  Bip322.simple_p2wpkh_secp256k1 flags msg h pk ht hht hl hW hnz hh hpk hp hk hsign der hder hmax henc hslen
+
+/-- BIP322 simple, p2tr address (key path), on the executed instance. -/
+theorem bip322_simple_p2tr_secp256k1 (flags : Nat) (msg prog : Bytes) (ht : Nat) (hht : ht < 256)
+    (hq : prog.length = 32) (hW : has flags FLAG_WITNESS = true) (hnz : castToBool prog = true)
+    (hdef : bip341Defined (Bip322.signCtx secpCrypto msg (p2tr prog)).tx 0
+      (Bip322.signCtx secpCrypto msg (p2tr prog)).spent ht = true)
+    (fuel : Nat) (q : Int) (aux : Bytes) (sg : Schnorr.Sig)
+    (hsign : Schnorr.sign (EC.ops EC.secp256k1) bip340Params fuel
+      (engineTapDigest secpCrypto (Bip322.signCtx secpCrypto msg (p2tr prog)) .TAPROOT ht 0xFFFFFFFF) q aux = .ok sg)
+    (sig64 : Bytes) (hser : Schnorr.serialize (EC.ops EC.secp256k1) bip340Params sg = .ok sig64)
+    (hpk : ((ofBE prog : Nat) : Int) = (EC.ops EC.secp256k1).x ((EC.ops EC.secp256k1).mul q EC.secp256k1.G)) :
+    Bip322.verifySimple secpCrypto flags msg (p2tr prog) [] [sig64 ++ (if ht = 0 then [] else [UInt8.ofNat ht])] =
+      .ok () :=
+  Bip322.simple_p2tr_secp256k1 flags msg prog ht hht hq hW hnz hdef fuel q aux sg hsign sig64 hser hpk
+
+-- the model's to_spend / to_sign on a concrete message: version 0, null outpoint, OP_0 PUSH32 in the scriptSig, OP_RETURN
+example : (Bip322.toSpend taggedHash [1, 2] [0x51]).vin.map (·.prev.vout) = [0xFFFFFFFF] ∧
+    (Bip322.toSign hash256 (Bip322.toSpend taggedHash [1, 2] [0x51]) []).vout = [⟨0, [0x6a]⟩] := by decide
 
 /-! ## T2 — tampering changes the message (or exhibits a collision) -/
 
